@@ -942,3 +942,136 @@ void execute_plan(const Plan &p, RunResult &R) {
     for (auto &kv : g_seams.closed_files) R.files[kv.first] = kv.second;
     g_ex = nullptr; g_cur_conn = nullptr;
 }
+
+
+// ------------------------------------------------------------------------------------------------
+// direct drivers for the streaming sub-parsers
+
+static void direct_epilogue(const char *prop, std::vector<Violation> &viol) {
+    if (seams_live_blocks() != 0) {
+        Violation v; v.prop = "C01"; v.oracle = std::string(prop) + ".via.C01.leak"; v.detail = strfmt("%zu blocks live after destroy:%s", seams_live_blocks(), seams_describe_live(4).c_str());
+        viol.push_back(v); seams_forget_live();
+    }
+    for (auto &h : g_seams.ubsan) { Violation v; v.prop = "C01"; v.oracle = strfmt("%s.via.C01.ubsan.%s@%s", prop, h.kind.c_str(), h.file.c_str()); v.detail = strfmt("%s:%u", h.file.c_str(), h.line); viol.push_back(v); }
+    g_seams.ubsan.clear();
+}
+
+static void apply_decoder_cfg(htp_cfg_t *cfg, const Cfg &c) {
+    if (c.has("url_invalid")) htp_config_set_url_encoding_invalid_handling(cfg, HTP_DECODER_URLENCODED, (enum htp_url_encoding_handling_t) c.get("url_invalid", 0));
+    if (c.has("plusspace")) htp_config_set_plusspace_decode(cfg, HTP_DECODER_URLENCODED, (int) c.get("plusspace", 1));
+    if (c.has("u_decode")) htp_config_set_u_encoding_decode(cfg, HTP_DECODER_URLENCODED, (int) c.get("u_decode", 0));
+    if (c.has("nul_enc_term")) htp_config_set_nul_encoded_terminates(cfg, HTP_DECODER_URLENCODED, (int) c.get("nul_enc_term", 0));
+    if (c.has("nul_raw_term")) htp_config_set_nul_raw_terminates(cfg, HTP_DECODER_URLENCODED, (int) c.get("nul_raw_term", 0));
+}
+
+bool run_urlenp_direct(const Cfg &c, const Bytes &input, const std::vector<size_t> &chunks, Dump &out, std::vector<Violation> &viol) {
+    out.clear();
+    seams_reset_run();
+    g_seams.call_budget = 200000000;
+    bool ok = false;
+    {
+        ApiGuard g("urlenp_direct");
+        htp_cfg_t *cfg = htp_config_create();
+        htp_connp_t *connp = cfg ? htp_connp_create(cfg) : NULL;
+        htp_tx_t *tx = connp ? htp_connp_tx_create(connp) : NULL;
+        htp_urlenp_t *up = tx ? htp_urlenp_create(tx) : NULL;
+        if (up) {
+            apply_decoder_cfg(cfg, c);
+            size_t pos = 0;
+            std::vector<size_t> sizes = chunks;
+            size_t tot = 0; for (size_t n : sizes) tot += n;
+            if (tot < input.size()) sizes.push_back(input.size() - tot);
+            for (size_t n : sizes) {
+                n = std::min(n, input.size() - pos);
+                if (n == 0) continue;
+                // exact-size heap copy: an over-read is an ASan report
+                unsigned char *buf = (unsigned char *) malloc(n); memcpy(buf, input.data() + pos, n);
+                g_seams.track = true;
+                htp_urlenp_parse_partial(up, buf, n);
+                free(buf);
+                pos += n;
+            }
+            htp_urlenp_finalize(up);
+            size_t np = htp_table_size(up->params);
+            putn(out, "count", (long long) np);
+            for (size_t i = 0; i < np; i++) {
+                bstr *name = NULL; bstr *val = (bstr *) htp_table_get_index(up->params, i, &name);
+                putb(out, strfmt("%zu.name", i), name); putb(out, strfmt("%zu.value", i), val);
+            }
+            putn(out, "flags", (long long) tx->flags);
+            ok = true;
+        }
+        if (up) htp_urlenp_destroy(up);
+        if (connp) htp_connp_destroy_all(connp);
+        if (cfg) htp_config_destroy(cfg);
+    }
+    direct_epilogue("C15", viol);
+    return ok;
+}
+
+static thread_local std::map<void *, Bytes> *g_mp_files;
+static int mp_file_cb(htp_file_data_t *d) {
+    if (d && d->file && g_mp_files) { if (d->data && d->len) { (void) fnv_of(d->data, d->len); (*g_mp_files)[d->file].append((const char *) d->data, d->len); } else (*g_mp_files)[d->file]; }
+    return HTP_OK;
+}
+
+bool run_mpart_direct(const Cfg &c, const Bytes &content_type, const Bytes &body, const std::vector<size_t> &chunks, Dump &out, std::vector<Violation> &viol) {
+    out.clear();
+    seams_reset_run();
+    g_seams.call_budget = 200000000;
+    std::map<void *, Bytes> files; g_mp_files = &files;
+    bool ok = false;
+    {
+        ApiGuard g("mpart_direct");
+        htp_cfg_t *cfg = htp_config_create();
+        if (cfg) {
+            htp_config_register_request_file_data(cfg, mp_file_cb);
+            if (c.get("extract_files", 0)) { htp_config_set_tmpdir(cfg, (char *) "/simtmp"); htp_config_set_extract_request_files(cfg, 1, (int) c.get("extract_limit", -1)); }
+            bstr *ct = bstr_dup_mem(content_type.data(), content_type.size());
+            bstr *boundary = NULL; uint64_t flags = 0;
+            htp_status_t rc = ct ? htp_mpartp_find_boundary(ct, &boundary, &flags) : HTP_ERROR;
+            bstr_free(ct);
+            htp_mpartp_t *mp = (rc == HTP_OK && boundary) ? htp_mpartp_create(cfg, boundary, flags) : NULL;
+            if (mp) {
+                size_t pos = 0;
+                std::vector<size_t> sizes = chunks;
+                size_t tot = 0; for (size_t n : sizes) tot += n;
+                if (tot < body.size()) sizes.push_back(body.size() - tot);
+                for (size_t n : sizes) {
+                    n = std::min(n, body.size() - pos);
+                    if (n == 0) continue;
+                    unsigned char *buf = (unsigned char *) malloc(n); memcpy(buf, body.data() + pos, n);
+                    g_seams.track = true;
+                    htp_mpartp_parse(mp, buf, n);
+                    free(buf);
+                    pos += n;
+                }
+                htp_mpartp_finalize(mp);
+                htp_multipart_t *m = htp_mpartp_get_multipart(mp);
+                if (m) {
+                    putn(out, "flags", (long long) m->flags); putn(out, "boundary_count", m->boundary_count);
+                    size_t np = m->parts ? htp_list_size(m->parts) : 0;
+                    putn(out, "count", (long long) np);
+                    for (size_t i = 0; i < np; i++) {
+                        htp_multipart_part_t *pt = (htp_multipart_part_t *) htp_list_get(m->parts, i);
+                        if (!pt) continue;
+                        std::string q = strfmt("%zu", i);
+                        putn(out, q + ".type", pt->type); putb(out, q + ".name", pt->name); putb(out, q + ".value", pt->value); putb(out, q + ".ct", pt->content_type);
+                        if (pt->file) {
+                            putb(out, q + ".filename", pt->file->filename); putn(out, q + ".filelen", pt->file->len);
+                            auto it = files.find(pt->file); put(out, q + ".filedata", it == files.end() ? Bytes("<none>") : it->second);
+                            if (pt->file->tmpname) { auto f = g_seams.closed_files.find(pt->file->tmpname); put(out, q + ".tmpfile", f == g_seams.closed_files.end() ? Bytes("<open-or-missing>") : f->second); }
+                        }
+                        dump_headers(out, (q + ".hdr").c_str(), pt->headers);
+                    }
+                    ok = true;
+                }
+                htp_mpartp_destroy(mp);
+            } else if (boundary) bstr_free(boundary);
+            htp_config_destroy(cfg);
+        }
+    }
+    g_mp_files = nullptr;
+    direct_epilogue("C14", viol);
+    return ok;
+}
